@@ -3,7 +3,7 @@ import numpy as np
 import nets
 
 PID = "C19"
-THEOREMS = ["split_chain", "pieces_def", "swalk_spec", "links_once"]
+THEOREMS = ["split_chain", "pieces_def", "swalk_spec", "links_once", "cut_piece_bound", "streams_piece_bound"]
 RULE = ("loop-free closed graphs on n<=5 cells (n<=6 thorough) x downstream-closed masks x max_len 0..5 through "
         "streams.streams; long chains (up to 40 vertices) x max_len 1..12 for the cutting rule; random forests; "
         "FlwdirRaster.streams (mask / min_sto / custom xs, ys / extra maps) and vectorize on random rasters with "
@@ -174,7 +174,7 @@ def oracle(case, out):
                 continue
             if any(nup[v] > 1 for v in p[1:-1]):
                 return ("streams:interior-confluence", f"{p}")
-            if ml > 0 and len(p) - 1 > 1.5 * ml + 1:
+            if ml > 0 and 2 * len(p) > 3 * ml + 3:      # the proved bound (streams_piece_bound): at most 1.5 * max_len + 1.5 vertices
                 return ("streams:piece-too-long", f"{p} for max_len {ml}")
         if ml == 0:
             for p in paths:
